@@ -642,6 +642,8 @@ def run_plan(c):
         listing = extract_listing(plan, c.get("pre", []))
     except AssertionError:
         return out + [-1, 1]
+    except Exception as e:               # e.g. OSError from writing: never predicted by the model
+        return out + unexpected(e)
     out += [len(listing)]
     for nm, b in listing:
         out += enc_name(nm) + enc_name(b)
@@ -1162,7 +1164,7 @@ def explain(c):
             "ports": "[1, final port names] | [-1,1] AssertionError (impossible since cb9d97a) | [-1,2] TypeError",
             "dom": "[1, domains in the order missing_domain was called, design.ports names (= RTLIL port order)]",
             "names": "per fragment [1, signal_names, io_port_names, subfragment names]; [0] = ordered inputs not reproducible",
-            "plan": "[1, bytes hashed by digest(), archive members, sorted listing after extract()] | [-1,1] duplicate file",
+            "plan": "[1, bytes hashed by digest(), archive members with date_time and compress_type, sorted listing after extract() | -1,1 (`..` component)] | [-1,1] duplicate file | [-1,3] absolute name (ValueError)",
             "reset": "[pre-state reproduced, engine state after reset()]"}.get(c["k"], "")
 
 
